@@ -115,16 +115,19 @@ Proof. intros Ht w Hw. apply aiis_lut. lia. Qed.
 
 (* the structural part: the code segment, numbered in [c, c'), emits b and turns the table l into l' *)
 Definition cshape (l : alut) (code : list ir) (b : block) (l' : alut) (c c' : N) : Prop :=
-  Emits u l code b l' /\ c <= c' /\ lut_frame l l' c c'.
+  Emits u l code b l' /\ c <= c' /\ lut_frame l l' c c' /\ nolabel b.
+
+Lemma nolabel_app b1 b2 : nolabel b1 -> nolabel b2 -> nolabel (b1 ++ b2).
+Proof. unfold nolabel. intros H1 H2. apply Forall_app. split; assumption. Qed.
 
 Lemma cshape_nil l c : cshape l [] [] l c c.
-Proof. split; [apply Em_nil | split; [lia | apply lut_frame_refl]]. Qed.
+Proof. split; [apply Em_nil | split; [lia | split; [apply lut_frame_refl | constructor]]]. Qed.
 
 Lemma cshape_app l a1 b1 l1 c c1 a2 b2 l2 c2 :
   cshape l a1 b1 l1 c c1 -> cshape l1 a2 b2 l2 c1 c2 -> cshape l (a1 ++ a2) (b1 ++ b2) l2 c c2.
 Proof.
-  intros (H1 & Hc1 & Hf1) (H2 & Hc2 & Hf2).
-  split; [eapply Emits_app; eassumption | split; [lia | eapply lut_frame_trans; eassumption]].
+  intros (H1 & Hc1 & Hf1 & Hn1) (H2 & Hc2 & Hf2 & Hn2).
+  split; [eapply Emits_app; eassumption | split; [lia | split; [eapply lut_frame_trans; eassumption | apply nolabel_app; assumption]]].
 Qed.
 
 Lemma cshape_cons l op b1 l1 c c1 a2 b2 l2 c2 :
@@ -137,31 +140,45 @@ Lemma cshape_iis l op t ex c c' :
   cshape l [op] (fst (aiis u l t ex)) (snd (aiis u l t ex)) c c'.
 Proof.
   intros Ht Hs Hg. split; [rewrite <- Hg; apply Emits_one; exact Hs|].
-  split; [lia | apply aiis_frame; exact Ht].
+  split; [lia | split; [apply aiis_frame; exact Ht|]].
+  unfold aiis. destruct (count_of u t =? 0); [constructor|]. destruct (count_of u t =? 1); [constructor|].
+  repeat constructor.
 Qed.
 
 (* one instruction that emits statements and leaves the table alone *)
+Definition not_label_op (op : ir) : bool := match op with ILabel _ => false | _ => true end.
+
+Lemma agen_one_nolabel l op : not_label_op op = true -> nolabel (fst (agen_one u l op)).
+Proof.
+  intros H. destruct op; try discriminate; cbn [agen_one];
+    repeat match goal with
+           | |- context [aiis u l ?t ?ex] =>
+               unfold aiis; destruct (count_of u t =? 0); [|destruct (count_of u t =? 1)]
+           | |- context [if ?x then _ else _] => destruct x
+           end; cbn [fst]; repeat constructor.
+Qed.
+
 Lemma cshape_plain l op c c' :
-  c <= c' -> simple_op op = true -> snd (agen_one u l op) = l ->
+  c <= c' -> simple_op op = true -> not_label_op op = true -> snd (agen_one u l op) = l ->
   cshape l [op] (fst (agen_one u l op)) l c c'.
 Proof.
-  intros Hc Hs Hg. split.
+  intros Hc Hs Hnl Hg. split.
   - pose proof (Emits_one u l op Hs) as H. rewrite Hg in H. exact H.
-  - split; [exact Hc | apply lut_frame_refl].
+  - split; [exact Hc | split; [apply lut_frame_refl | apply agen_one_nolabel; exact Hnl]].
 Qed.
 
 Lemma cshape_widen l code b l' c c' c0 c1 :
   cshape l code b l' c c' -> c0 <= c -> c' <= c1 -> cshape l code b l' c0 c1.
 Proof.
-  intros (H & Hc & Hf) H0 H1. split; [exact H | split; [lia | eapply lut_frame_widen; eassumption]].
+  intros (H & Hc & Hf & Hn) H0 H1. split; [exact H | split; [lia | split; [eapply lut_frame_widen; eassumption | exact Hn]]].
 Qed.
 
 (* pieces whose temporaries are not numbered in emission order (and/or, if): same range for all *)
 Lemma cshape_app' l a1 b1 l1 a2 b2 l2 c c' :
   cshape l a1 b1 l1 c c' -> cshape l1 a2 b2 l2 c c' -> cshape l (a1 ++ a2) (b1 ++ b2) l2 c c'.
 Proof.
-  intros (H1 & Hc1 & Hf1) (H2 & Hc2 & Hf2).
-  split; [eapply Emits_app; eassumption | split; [lia|]].
+  intros (H1 & Hc1 & Hf1 & Hn1) (H2 & Hc2 & Hf2 & Hn2).
+  split; [eapply Emits_app; eassumption | split; [lia | split; [|apply nolabel_app; assumption]]].
   intros w Hw. rewrite Hf2 by exact Hw. apply Hf1. exact Hw.
 Qed.
 
@@ -172,7 +189,7 @@ Proof. intros H1 H2. apply (cshape_app' l [op] b1 l1 a2 b2 l2 c c' H1 H2). Qed.
 Lemma cshape_if l a ct bt l1 c c' :
   cshape l ct bt l1 c c' -> cshape l (IIf a :: ct ++ [IEnd]) [SIf (aexpand l a) bt []] l1 c c'.
 Proof.
-  intros (H & Hc & Hf). split; [|split; assumption].
+  intros (H & Hc & Hf & Hn). split; [|split; [exact Hc | split; [exact Hf | repeat constructor]]].
   apply (Em_if u l a ct bt l1 [] [] l1 H (Em_nil u l1)).
 Qed.
 
